@@ -18,9 +18,8 @@ def skip_region(syn, feats, skipped):
     """Dom_C01: regions of known findings are skipped; their witnesses are replayed separately."""
     fid = None
     if syn in ("uper", "oer") and "SET" in feats: fid = "F32"
-    elif syn == "uper" and "named_plain_numeric" in feats: fid = "F46"
-    elif syn == "uper" and "choice_alias" in feats: fid = "F38"
-    elif syn == "uper" and "enum_alias" in feats: fid = "F123"
+    # F46 (named plain NumericString), F38 / F123 (type assignment that references a CHOICE / an ENUMERATED type) are
+    # repaired: the features named_plain_numeric / choice_alias / enum_alias are compared like any other type
     if fid: skipped[fid] += 1
     return fid is not None
 
@@ -63,7 +62,9 @@ def run(ctx):
     fixedvals = {id(bm): bvals, id(xm): xvals}
     tg = genmod.tagged_member_modules(big=False)            # tagged SEQUENCE OF / SET OF elements, EXPLICIT tags on own-descriptor members (F122 / F49 repaired)
     fixedvals.update({id(m): v for m, v in tg})
-    for m in [bm, xm] + [m for m, _ in tg] + mods:
+    al = [genmod.alias_module(td) for td in (None, "AUTOMATIC")]     # type assignments that reference / tag another type (F38 / F123 / F111 / F46 repaired)
+    fixedvals.update({id(m): v for m, v in al})
+    for m in [bm, xm] + [m for m, _ in tg] + [m for m, _ in al] + mods:
         txt = genmod.module_text(m)
         env = dict(m["types"])
         b = bundle.Bundle(m["name"], txt, [n for n, _ in m["types"]])
